@@ -1601,3 +1601,14 @@ for _c in ('C04', 'C06', 'C07'):
                  "difference coincide with Coquelicot's is_derive_n / is_RInt) depend on the standard library's real-number axioms "
                  "ClassicalDedekindReals.sig_forall_dec, sig_not_dec and FunctionalExtensionality.functional_extensionality_dep; the "
                  f"generic theorems of Properties_{_c}.v are closed under the global context"])
+
+# translator ties: kernels (K) and whole operations (O) as compiled, see DESIGN R8
+_K = ("cpp/symkern_sym.h + cpp/symkern.cpp + gen/symkern.py: the real kernel templates of /repo's current headers are compiled "
+      "(g++) and run over a symbolic scalar type; the expressions they compute are written to coq/gen/KernelGen_*.v together "
+      "with generated lemma statements (model function = that expression, for every ordered field), proved by the fixed "
+      "reflexive tactic of coq/Proofs_KernelTac.v; finite instance ranges (Properties_%s_K.v)")
+_O = ("cpp/symops.cpp + gen/symops.py: the same for whole public operations on splines with symbolic grid points and "
+      "coefficients and concrete windows/orders (coq/gen/OpsGen_*.v, coq/Proofs_OpsTac.v, Properties_%s_O.v); finite scenario lists")
+for _c in ('C02', 'C03', 'C04', 'C06', 'C07'):
+    PROPS[_c]['trusted_extra'] = list(PROPS[_c].get('trusted_extra', [])) + [_K % _c] + ([_O % _c] if _c != 'C02' else [])
+
